@@ -26,6 +26,7 @@ type Config struct {
 	Trace        bool
 	CSolver      string // solver for the concurrency query (z3 | z3new | cvc5)
 	CTimeoutS    int
+	CPar         int    // parallel solver processes for the concurrency query (violating leaves are split into groups)
 }
 
 type decision struct {
@@ -101,6 +102,7 @@ type Exec struct {
 	ivMemo    map[int]ival // ranges under the current bounds (dropped when a bound tightens)
 	noFold    bool
 	Folded    int
+	Summarised int // calls of time.absDate answered by the month-table summary
 	hangAt    int // VerifStepBound: step count at which the path counts as not terminating
 	depth     int
 	cur       *G
@@ -129,6 +131,7 @@ type Exec struct {
 	wallMs        map[int]*Term
 	provided      map[string]Value
 	manualClock   *Term
+	clockSteps    []int64 // VerifClockSteps: per-read advance choices (ms)
 	timerObjs     map[Ptr]*timerObj
 	opaqueN       int
 	fmtSymbolic   int
@@ -985,6 +988,7 @@ func (x *Exec) resetPath() {
 	x.wallMs = map[int]*Term{}
 	x.provided = map[string]Value{}
 	x.manualClock = nil
+	x.clockSteps = nil
 	x.timerObjs = map[Ptr]*timerObj{}
 	x.opaqueN = 0
 }
